@@ -376,6 +376,8 @@ func c25PermFamily(rep *mc.Report, conv string) (int64, int64) {
 	// all keys in the order of the real from-end SQL (tag1 ascending, tag2 descending), two keys descending;
 	// thorough: both buckets in every arrangement
 	few := map[string]bool{"[]": true, "[0 1 2 3]": true, "[3 2 1 0]": true, "[1 0 3 2]": true, "[2 1]": true}
+	rep.Rule += "; plus family 'storage bucket order': rows keyed by two tags (4 keys per slot, 2 slots, 1-2 LODs) x every arrangement (subset x permutation) of the rows of a time bucket as handed back by the storage (quick: one bucket in every arrangement, the other one of 5 shapes; thorough: both) x two-tag row markers x both directions x limits x {1, 8} functions; non-trivial there = a bucket not ordered in the requested direction, or as above"
+	rep.Assume("family 'storage bucket order': the storage may return the rows of a time bucket in any order; the identity of the page and has-more are judged only where every bucket arrives ordered in the requested direction (elsewhere counted under storage_bucket_order_open_cases)")
 	rep.Bounds["storage_bucket_order:slots_x_keys"] = fmt.Sprintf("%d x %d (tag1, tag2 in {1,2})", slots, c25pKeys)
 	rep.Bounds["storage_bucket_order:arrangements_per_bucket"] = len(arr)
 	rep.Bounds["storage_bucket_order:limits"] = limits
